@@ -371,20 +371,46 @@ def run_case(case, ctx):
     return held(sig, nontrivial, cls)
 
 
+def _tri(a, b, c):
+    return 0.5 * abs((b[0] - a[0]) * (c[1] - b[1]) - (c[0] - b[0]) * (b[1] - a[1]))
+
+
+def _vw_eliminates_all_interior(pts, tol):
+    """Classification aid only (never a verdict): does smallest-area-first
+    elimination with threshold tol^2 remove every interior fix?"""
+    P = list(pts)
+    while len(P) > 2:
+        areas = [_tri(P[i - 1], P[i], P[i + 1]) for i in range(1, len(P) - 1)]
+        k = min(range(len(areas)), key=areas.__getitem__)
+        if not (areas[k] <= tol * tol):
+            return False
+        del P[k + 1]
+    return True
+
+
 def classify(case, witness):
     """Mechanisms of the two C16 defects already fixed in /repo (status
-    'fixed' in known_findings.json: nothing is suppressed).  Predicates over
-    the input: the mode and the shape of the track."""
+    'fixed' in known_findings.json, so nothing is suppressed; this only labels
+    replays).  Predicates over the input: the mode and the shape of the track."""
     if not isinstance(witness, dict) or case.get("kind") != "simp":
         return None
     pts = [tuple(p) for p in case["pts"]]
     n = len(pts)
+    tol = case["tol"]
     raised = witness.get("raised")
-    text = raised.brief() if isinstance(raised, M.Raised) else str(raised)
-    if case["mode"] == "DP" and witness.get("kind") == "raised" and "ZeroDivisionError" in text \
+    if isinstance(raised, M.Raised):
+        text = raised.brief()
+    elif isinstance(raised, dict):
+        text = str(raised.get("raised"))
+    else:
+        text = str(raised)
+    kind = witness.get("kind")
+    if case["mode"] == "DP" and kind == "raised" and "ZeroDivisionError" in text \
             and any(pts[i] == pts[j] for i in range(n) for j in range(i + 2, n)):
         return "C16:dp-zero-length-chord"          # a chord of zero length can be formed (revisit / closed loop)
-    if case["mode"] == "VW" and n >= 3 and (witness.get("kind") == "first_missing"
-                                             or (witness.get("kind") == "raised" and "IndexError" in text)):
-        return "C16:visvalingam-endpoints"
+    if case["mode"] == "VW" and (kind == "first_missing" or (kind == "raised" and "IndexError" in text)):
+        # the first fix carries the wrapped-around area (last, first, second): it is eliminated when that area is
+        # within the tolerance; the track is emptied when every interior area is within the tolerance
+        if n == 2 or _tri(pts[-1], pts[0], pts[1]) <= tol * tol or _vw_eliminates_all_interior(pts, tol):
+            return "C16:visvalingam-endpoints"
     return None
